@@ -517,5 +517,8 @@ def check(ctx: Ctx, col: Collector, tier: str) -> None:
         else:
             col.bad("C06.SERIALISE", k, repo.loc(API_MOD, sfi.node), f"{keyname}: {sorted(map(repr, vals))}",
                     f"Parameter.to_dict writes {keyname!r} from {sorted(map(repr, vals))}, not from {want_path}")
+    from .shared import share
+    share(ctx, col, "C13", {"C13.CACHE"}, "a parameter without an annotation takes its type, optionality and default from its docstring entry: the entry has to come from this function's own docstring, "
+          "never from the docstring cached for the function analysed before")
     col.assume("numeric defaults are rendered by str() of an int/float (text equality with Python's repr is not decided)")
     col.assume("docstring-provided defaults under the DOCSTRING preference are not decided")
